@@ -392,3 +392,217 @@ def stage_check(ctx, o, fname, insns, cfg, head, inst):
     ctx.ob(True, inst, where, "%d-way stage: %d instructions; for every input g and word i the loop body maps h -> compress(h, 64 message bytes of input g, counter slots [%#x+4g]/[%#x+4g], 64, flags) term for term; the epilogue stores word i of input g at out+32g+4i"
            % (W, B.executed, lo0, hi0))
     return dict(W=W, roles=roles, B=B, E=E, loc=loc, lo0=lo0, hi0=hi0, after=after)
+
+
+def wide_heads(cfg, insns):
+    out = []
+    for head, srcs in sorted(cfg.heads.items()):
+        s, e = cfg.blocks[head]
+        selfloop = any(cfg.block_of(x) == head for x in srcs)
+        nadds = sum(1 for i in insns[s:e] if i.mn in ("vpaddd", "paddd"))
+        if selfloop and nadds > 100:
+            out.append(head)
+    return out
+
+
+def rule_R1asm_xof(ctx):
+    n = 0
+    for o in objects(ctx):
+        for fname in sorted(o.funcs):
+            if op_of(fname) == "xof_many":
+                n += 1
+                check_xof_many(ctx, o, fname)
+    ctx.floor("assembly xof_many routines", n, 1)
+
+
+def rule_R1asm_many(ctx):
+    n = 0
+    for o in objects(ctx):
+        for fname in sorted(o.funcs):
+            if op_of(fname) != "hash_many":
+                continue
+            insns = o.funcs[fname]
+            cfg = CFG(insns)
+            for head in wide_heads(cfg, insns):
+                n += 1
+                stage_check(ctx, o, fname, insns, cfg, head, "asm-wide-stage:%s:%s:%d" % (fname, o.flavour, len([h for h in wide_heads(cfg, insns) if h <= head])))
+    ctx.floor("transposed hash_many stages in assembly", n, 10)
+
+
+# ======================================================================= xof_many ====
+def enumerate_regions(o, insns, start_addrs, shared_T=None, limit=80, setup=None):
+    """decided paths between undecided branches: [(start, machine, result)]"""
+    idx = {i.addr: n for n, i in enumerate(insns)}
+    todo = list(start_addrs)
+    seen = set()
+    out = []
+    while todo and len(out) < limit:
+        a = todo.pop(0)
+        if a in seen or a not in idx:
+            continue
+        seen.add(a)
+        M = fresh_machine(o)
+        if setup:
+            setup(M)
+        res = M.run(insns, idx[a], stop_addrs=set())
+        out.append((a, M, res))
+        if res[0] == "branch":
+            ins, cc, tgt, pc = res[1]
+            if tgt is not None:
+                todo.append(tgt)
+            if pc + 1 < len(insns):
+                todo.append(insns[pc + 1].addr)
+    return out
+
+
+def carry_add(T, new_lo, new_hi, old_lo, old_hi, c):
+    """(new_hi:new_lo) == (old_hi:old_lo) + c as a 64-bit sum, in one of the canonical term forms"""
+    if c == 0:
+        return new_lo == old_lo and new_hi == old_hi
+    if new_lo != T.add(old_lo, T.const(c)):
+        return False
+    cond = T.mk("ltu", new_lo, old_lo)
+    return new_hi == T.mk("sel", cond, T.add(old_hi, T.const(1)), old_hi)
+
+
+def reg_sym(M, name):
+    return G({M.T.sym(name): 1})
+
+
+def check_xof_many(ctx, o, fname):
+    insns = o.funcs[fname]
+    tag = "%s:%s" % (fname, o.flavour)
+    where = o.src
+    # stable argument registers: never written inside the function
+    stable = {"rdi": "cv", "rsi": "block", "rdx": "block_len", "r8": "flags"}
+    written = set()
+    # the single-block fast path at the top (ends in its own ret) is a separate region with its own argument use
+    first_ret = next((n for n, i in enumerate(insns) if i.mn == "ret"), 0)
+    fast = asmabi.is_jump(insns[2].mn) or any(asmabi.is_jump(i.mn) for i in insns[:4])
+    body = insns[first_ret + 1:] if fast else insns
+    for i in body:
+        written |= asmabi.writes(i)
+    bad = sorted(r for r in stable if r in written)
+    ctx.ob(not bad, "asm-xof-stable-args:%s" % tag, where, "argument registers %s are %s inside the function" % (sorted(stable), "never written" if not bad else "written: %s" % bad))
+    if bad:
+        return
+    def setup(M):
+        # the uint8_t arguments arrive zero-extended (assumption recorded in the evidence)
+        M.gpr["rdx"] = M.sym64("arg8:block_len", small=True)
+        M.gpr["r8"] = M.sym64("arg8:flags", small=True)
+    try:
+        regs = enumerate_regions(o, insns, [insns[0].addr], setup=setup)
+    except Unsupported as u:
+        ctx.ob(False, "asm-xof-regions:%s" % tag, where, "not decidable: %s" % u)
+        return
+    nstage = 0
+    for start, M, res in regs:
+        T = M.T
+        rel = start - insns[0].addr
+        outs = {}
+        r9 = reg_sym(M, "r9")
+        foreign = 0
+        for a, lanes in M.stores:
+            d = a.add(r9, -1)
+            if not d.is_const():
+                foreign += 1
+                continue
+            for j, t in enumerate(lanes):
+                outs[(d.c + 4 * j) & ((1 << 64) - 1)] = t
+        inst = "asm-xof-stage:%s:+%#x" % (tag, rel)
+        if foreign:
+            ctx.ob(False, inst, where, "%d store(s) to memory that is not the out pointer" % foreign)
+            continue
+        if not outs:
+            # a region without output: it must not disturb the cursors either (prologue / dispatch tests), except the prologue
+            continue
+        nstage += 1
+        W, rem = divmod(len(outs) * 4, 64)
+        if rem or set(outs) != {4 * k for k in range(16 * W)}:
+            ctx.ob(False, inst, where, "writes %d bytes, not whole consecutive 64-byte blocks from out" % (4 * len(outs)))
+            continue
+        cv = [T.mk("ld32", reg_sym(M, "rdi").add(G({}, 4 * i)).key()) for i in range(8)]
+        m = [T.mk("ld32", reg_sym(M, "rsi").add(G({}, 4 * j)).key()) for j in range(16)]
+        bl = T.sym("arg8:block_len")
+        fl = T.sym("arg8:flags")
+        in_frame = rel != 0 and "rsp[0x0]" in " ".join(T.rev[x][1] for x in leaf_set(T, outs[0]) if T.rev[x][0] == "sym")
+        problem = None
+        for g in range(W):
+            if in_frame:
+                lo, hi = T.sym("rsp[%s]" % hex(4 * g)), T.sym("rsp[%s]" % hex(0x40 + 4 * g))
+            else:
+                lo, hi = T.mk("lo", T.sym("rcx")), T.mk("hi", T.sym("rcx"))
+            v = r_round.spec_compress_pre(T, cv, m, lo, hi, bl, fl)
+            want = [T.xor(v[i], v[i + 8]) for i in range(8)] + [T.xor(v[i + 8], cv[i]) for i in range(8)]
+            for i in range(16):
+                got = outs[64 * g + 4 * i]
+                if got != want[i]:
+                    dd = divergence(T, got, want[i]) or (got, want[i])
+                    problem = "output block %d word %d is not the spec XOF compression with the counter of lane %d: code has %s ; spec has %s" % (g, i, g, T.show(dd[0])[:110], T.show(dd[1])[:110])
+                    break
+            if problem:
+                break
+        # the stage is entered exactly when its bit of the remaining-block count is set (16-block loop: count >= 16)
+        idx = {i.addr: n for n, i in enumerate(insns)}
+        if problem is None and in_frame:
+            k = idx[start]
+            prev = [i for i in insns[max(0, k - 3):k] if i.mn != "nop"][-2:]
+            if W == 16:
+                okd = len(prev) == 2 and prev[0].mn == "cmp" and asmabi.canon_reg(prev[0].ops[0]) == "r10" and int(prev[0].ops[1], 0) == 16 and prev[1].mn in ("jb", "jc") \
+                    and res[0] == "branch" and res[1][1] in ("ae", "nc") and M.flags[0] == "cmp" and M.flags[2].is_const() and M.flags[2].c == 16
+            else:
+                okd = len(prev) == 2 and prev[0].mn == "test" and asmabi.canon_reg(prev[0].ops[0]) == "r10" and int(prev[0].ops[1], 0) == W and prev[1].mn in ("je", "jz")
+            if not okd:
+                problem = "the %d-block stage is not guarded by the matching test of the remaining-block count (%s)" % (W, " ; ".join(i.raw.split("\t", 1)[-1].strip() for i in prev))
+        # cursors after the stage
+        if problem is None and res[0] != "ret":
+            r9x = M.gpr.get("r9", r9).add(r9, -1)
+            if not (r9x.is_const() and r9x.c == 64 * W):
+                problem = "out advances by %s ; the stage wrote %d bytes" % (hex(r9x.c) if r9x.is_const() else "a non-constant", 64 * W)
+            r10 = reg_sym(M, "r10")
+            r10x = M.gpr.get("r10", r10).add(r10, -1)
+            loops = res[0] == "branch" and res[1][2] == start
+            if problem is None and loops and not (r10x.is_const() and r10x.c == (-W) & ((1 << 64) - 1)):
+                problem = "the remaining-block count changes by %s per iteration of a %d-block stage" % (hex(r10x.c) if r10x.is_const() else "?", W)
+            if problem is None and in_frame:
+                if loops:
+                    for j in range(16):
+                        ol, oh = T.sym("rsp[%s]" % hex(4 * j)), T.sym("rsp[%s]" % hex(0x40 + 4 * j))
+                        nl = M.frame.get((list(M.frame_regs)[0], 4 * j), ol)
+                        nh = M.frame.get((list(M.frame_regs)[0], 0x40 + 4 * j), oh)
+                        if not carry_add(T, nl, nh, ol, oh, W):
+                            problem = "counter lane %d is not advanced by %d as a 64-bit value (lo %s, hi %s)" % (j, W, T.show(nl)[:60], T.show(nh)[:80])
+                            break
+                else:
+                    # a tail stage runs at most once; at most W-1 blocks can follow: their counters must have moved down
+                    fb = [k for k, nm in M.frame_regs.items() if nm == "rsp"][0]
+                    for j in range(max(W - 1, 0)):
+                        for base in (0, 0x40):
+                            want_t = T.sym("rsp[%s]" % hex(base + 4 * (j + W)))
+                            got_t = M.frame.get((fb, base + 4 * j), T.sym("rsp[%s]" % hex(base + 4 * j)))
+                            if got_t != want_t:
+                                problem = "after the %d-block tail, counter %s lane %d holds %s ; the next stage needs the value of lane %d" % (W, "low" if base == 0 else "high", j, T.show(got_t)[:60], j + W)
+                                break
+                        if problem:
+                            break
+        ctx.ob(problem is None, inst, where, problem or "%d-block stage (%d instructions): every output word equals the spec XOF compression of (cv, block, counter of its lane, block_len, flags); out += %d; counters %s"
+               % (W, M.executed, 64 * W, "advanced by %d with carry" % W if res[0] == "branch" and res[1][2] == start else "handed to the next stage"))
+    ctx.floor("xof_many stages (%s)" % o.flavour, nstage, 6)
+    # prologue: the counter arrays
+    for start, M, res in regs:
+        T = M.T
+        fb = [k for k, nm in M.frame_regs.items() if nm == "rsp"]
+        hit = [k for k in M.frame if k[0] not in fb]
+        # the region that realigns rsp creates a new frame base
+        newb = [k for k, nm in M.frame_regs.items() if nm not in ("rsp", "rbp")]
+        if not newb:
+            continue
+        b = newb[0]
+        lo0, hi0 = T.mk("lo", T.sym("rcx")), T.mk("hi", T.sym("rcx"))
+        problem = None
+        for j in range(16):
+            nl, nh = M.frame.get((b, 4 * j)), M.frame.get((b, 0x40 + 4 * j))
+            if nl is None or nh is None or not carry_add(T, nl, nh, lo0, hi0, j):
+                problem = "initial counter lane %d is (lo %s, hi %s) ; required counter + %d" % (j, T.show(nl)[:50] if nl is not None else None, T.show(nh)[:70] if nh is not None else None, j)
+                break
+        ctx.ob(problem is None, "asm-xof-initial-counters:%s" % tag, where, problem or "frame[4j] / frame[0x40+4j] = low/high word of counter + j for j = 0..15")
